@@ -24,6 +24,11 @@ func debug(spec string) {
 	if len(parts) > 3 {
 		fmt.Sscan(strings.TrimSpace(parts[3]), &ro.batch)
 	}
+	if pl := os.Getenv("C10_PLIMIT"); pl != "" {
+		var n int
+		fmt.Sscan(pl, &n)
+		ro.mutate = partialsMutator(n)
+	}
 	zctx := zed.NewContext()
 	vals, err := parseRows(zctx, rows)
 	if err != nil {
